@@ -132,8 +132,11 @@ public:
 
   shared_ptr &operator=(const shared_ptr &other) noexcept
   {
-    wrapper().~shared_ptr_wrapper();
-    other.wrapper().CopyTo(buffer_);
+    if (this != &other)
+    {
+      wrapper().~shared_ptr_wrapper();
+      other.wrapper().CopyTo(buffer_);
+    }
     return *this;
   }
 
